@@ -243,11 +243,15 @@ class SWorld(object):
 
         self.fn = fn
         self.runner = self.xyz.Runner(fn, var_names=["x", "d"], fn_args=("a", "b"), constants={"k": 3})
-        self.new_session()
+        self.samplers = {}
+        self.new_session(1)
+        self.new_session(2)
         self.ncrop = 0
 
-    def new_session(self):
-        self.s = self.xyz.Sampler(self.runner, self.data_name, default_combos={"a": [1, 2, 3], "b": [1, 2, 3]}, engine=self.engine)
+    def new_session(self, h=1):
+        self.samplers[h] = self.xyz.Sampler(self.runner, self.data_name, default_combos={"a": [1, 2, 3], "b": [1, 2, 3]},
+                                            engine=self.engine)
+        self.s = self.samplers[h]
 
     def close(self):
         shutil.rmtree(self.tmp, ignore_errors=True)
@@ -263,10 +267,10 @@ class SWorld(object):
             out.append([a, b, int(x) // 1000 if ok else -1])
         return out
 
-    def observe(self):
+    def observe(self, h=1):
         exists = os.path.exists(self.data_name)
         disk = self.rows_of(self.xyz.load_df(self.data_name, engine=self.engine)) if exists else None
-        mem = self.rows_of(self.s._full_df)
+        mem = self.rows_of(self.samplers[h]._full_df)
         return dict(exists=exists, disk=disk, mem=mem, listing=sorted(f for f in os.listdir(self.tmp) if not f.startswith(".xyz")))
 
 
@@ -282,10 +286,12 @@ def replay_s(case, variant):
             last = None
             try:
                 with contextlib.redirect_stdout(io.StringIO()), contextlib.redirect_stderr(io.StringIO()):
+                    h = ev["args"][0]
                     if ev["a"] == "session":
-                        w.new_session()
+                        w.new_session(h)
                     else:
-                        rows, v = ev["args"]
+                        _, rows, v = ev["args"]
+                        smp = w.samplers[h]
                         VER[0] = v
                         feeds = {"a": [r[0] for r in rows], "b": [r[1] for r in rows]}
                         pos = {"a": 0, "b": 0}
@@ -301,10 +307,10 @@ def replay_s(case, variant):
                             opts = {}
                             if variant.get("shuffle"):
                                 opts["shuffle"] = variant["shuffle"]
-                            last = w.s.sample_combos(len(rows), combos, verbosity=0, **opts)
+                            last = smp.sample_combos(len(rows), combos, verbosity=0, **opts)
                         else:
                             w.ncrop += 1
-                            crop = w.s.Crop(name="c%d" % w.ncrop, parent_dir=w.tmp, batchsize=variant.get("batchsize", 2))
+                            crop = smp.Crop(name="c%d" % w.ncrop, parent_dir=w.tmp, batchsize=variant.get("batchsize", 2))
                             crop.sow_samples(len(rows), combos=combos, verbosity=0)
                             crop.grow_missing(verbosity=0)
                             last = crop.reap()
@@ -312,12 +318,13 @@ def replay_s(case, variant):
                 exc = e
             if exc is not None:
                 return (label + ": raised %s: %s" % (type(exc).__name__, str(exc)[:300]), "raise", k, notes)
-            o = w.observe()
+            h = ev["args"][0]
+            o = w.observe(h)
             want = [list(r) for r in post["table"]]
             if os.path.basename(w.data_name) not in o["listing"]:
                 return (label + ": directory holds %r, the table file is missing" % (o["listing"],), "listing", k, notes)
             if ev["a"] != "session":
-                n = len(ev["args"][0])
+                n = len(ev["args"][1])
                 before = prev_disk or []
                 if o["disk"] is None or len(o["disk"]) != len(before) + n:
                     return (label + ": table has %r rows after sampling %d more onto %d" % (
@@ -325,7 +332,7 @@ def replay_s(case, variant):
                 if o["disk"][:len(before)] != before:
                     return (label + ": earlier rows changed: %r -> %r" % (before, o["disk"][:len(before)]), "not_append_only", k, notes)
                 new = sorted(o["disk"][len(before):])
-                want_new = sorted([r[0], r[1], ev["args"][1]] for r in ev["args"][0])
+                want_new = sorted([r[0], r[1], ev["args"][2]] for r in ev["args"][1])
                 if new != want_new:
                     return (label + ": new rows %r, expected (as a set) %r (-1 marks a row whose outputs do not belong to its arguments)" % (
                         new, want_new), "row_wrong", k, notes)
@@ -333,8 +340,8 @@ def replay_s(case, variant):
                     return (label + ": returned / last_df rows %r, expected %r" % (sorted(w.rows_of(last)), want_new), "last_df", k, notes)
             if sorted(o["disk"] or []) != sorted(want):
                 return (label + ": table on disk %r, model %r" % (o["disk"], want), "table", k, notes)
-            want_mem = post["tmem"]
-            if want_mem != [-1]:
+            want_mem = post["tmem"][h - 1]
+            if want_mem != [-1] and ev["a"] != "session":
                 if o["mem"] != o["disk"]:
                     return (label + ": Sampler.full_df differs from the table on disk", "mem_ne_disk", k, notes)
             prev_disk = o["disk"]
